@@ -158,7 +158,7 @@ func checkSeqResponses(h *seqHarness, x *vs.Exec) []Viol {
 		for _, mem := range m.Members {
 			n := len(enters[mem.Method])
 			switch mem.Kind {
-			case 'n', 'h', 'z':
+			case 'n', 'h', 'z', 'e':
 				Hit("C01.R8")
 				if x.Outcome == "ok" && (n != 1 || len(exits[mem.Method]) != 1) && !(h.baseCtx && n == 0) {
 					v = append(v, Viol{"C01.R8", fmt.Sprintf("notification %s: handler ran %d times", mem.Method, n)})
@@ -460,11 +460,11 @@ func c01Seq(tokens []string, conc int, b Bounds) *Scenario {
 	}
 }
 
-var c01Alphabet = []string{"c", "f", "n", "[cc]", "[cn]", "[nc]", "[nn]", "[n]", "[c]", "u", "v", "[cx]", "[yc]", "x", "[cd]", "i", "z", "[zz]", "[cv]", "[vn]", "[xcc]", "[ucn]", "[ync]"}
+var c01Alphabet = []string{"c", "f", "n", "[cc]", "[cn]", "[nc]", "[nn]", "[n]", "[c]", "u", "v", "[cx]", "[yc]", "x", "[cd]", "i", "z", "[zz]", "[cv]", "[vn]", "[xcc]", "[ucn]", "[ync]", "e", "[ec]", "[ee]"}
 
 func c01Scenarios(tier string) []*Scenario {
 	var out []*Scenario
-	running := map[string]bool{"z": true, "[zz]": true, "c": true, "f": true, "n": true, "[cc]": true, "[cn]": true, "[nc]": true, "[nn]": true, "[n]": true, "[c]": true, "[cx]": true, "[yc]": true, "[cd]": true, "[cv]": true, "[vn]": true, "[xcc]": true, "[ucn]": true, "[ync]": true}
+	running := map[string]bool{"z": true, "[zz]": true, "c": true, "f": true, "n": true, "[cc]": true, "[cn]": true, "[nc]": true, "[nn]": true, "[n]": true, "[c]": true, "[cx]": true, "[yc]": true, "[cd]": true, "[cv]": true, "[vn]": true, "[xcc]": true, "[ucn]": true, "[ync]": true, "e": true, "[ec]": true, "[ee]": true}
 	if tier == "quick" {
 		for _, a := range c01Alphabet {
 			out = append(out, c01Seq([]string{a}, 2, Bounds{2, -1, 1}))
